@@ -14,7 +14,7 @@ PROPERTY = "C07"
 LEVEL = "exploration"
 RULE = ("schedules: batch size 1..8, 2..4 worker threads (joblib threading backend, one Job.evaluate per task), the "
         "release order at the gates objective-entry / objective-exit / constraint / store-sync-entry / store-sync-exit "
-        "is a generated list of integers and burst tokens, store in {Dummy, SQLite}, optional transient failures on "
+        "is a generated list of integers and burst tokens, store in {Dummy, SQLite} (optionally with two more gates inside the synchronisation: before the upsert and before the commit, where the exclusive lock is held), optional transient failures on "
         "some tasks; oracle: differential against serial evaluation of an identical batch (vector, costs, signed "
         "costs, state per design), objective calls per design, one SQLite row per design equal to its final data. "
         "Bounded-exhaustive: ALL release orders at gate granularity for (2 tasks, 2 workers) and (3 tasks, 2 workers) "
@@ -33,7 +33,10 @@ def schedules(draw):
     toks = draw(st.lists(st.one_of(st.integers(0, 3), st.integers(0, 3), st.integers(0, 3), st.integers(0, 3),
                                    st.just("B")), min_size=1, max_size=60))
     fails = [draw(st.sampled_from([0, 0, 0, 1, 2])) for _ in range(b)]
-    return {"b": b, "workers": workers, "tokens": toks, "store": draw(st.booleans()),
+    store = draw(st.booleans())
+    return {"b": b, "workers": workers, "tokens": toks, "store": store,
+            # gates inside the store synchronisation as well (before the upsert, before the commit = lock held)
+            "sqlgates": store and draw(st.booleans()),
             "constraints": draw(st.booleans()), "fails": fails if draw(st.booleans()) else [0] * b,
             "default": draw(st.integers(0, 3)), "cycle": True, "seed": draw(st.integers(0, 2 ** 31))}
 
@@ -87,6 +90,29 @@ def run_batch(case, clause, parallel):
     prob = make_problem(ps, cs, ev, constraints=con if case["constraints"] else None)
     seed_all(case["seed"])
     db = None
+    real_connect = sqlite3.connect
+
+    class GCursor(sqlite3.Cursor):
+        def execute(self, sql, *a, **kw):
+            if isinstance(sql, str) and sql.lstrip().upper().startswith("INSERT INTO INDIVIDUALS"):
+                gate("sql-upsert")
+            return super().execute(sql, *a, **kw)
+
+    class GConn(sqlite3.Connection):
+        def cursor(self, *a, **kw):
+            return super().cursor(GCursor)
+
+        def commit(self):
+            if self.in_transaction:
+                gate("sql-commit")          # the exclusive lock is held here
+            return super().commit()
+
+    def gated_connect(*a, **kw):
+        kw.setdefault("factory", GConn)
+        return real_connect(*a, **kw)
+    use_sql = bool(parallel and case.get("sqlgates"))
+    if use_sql:
+        sqlite3.connect = gated_connect
     try:
         with guard(clause):
             if case["store"]:
@@ -136,6 +162,7 @@ def run_batch(case, clause, parallel):
                  "state": str(i.state), "calls": calls.get(t, 0)} for t, i in enumerate(inds)]
         return recs, rows, sched
     finally:
+        sqlite3.connect = real_connect
         dispose(prob)
 
 
@@ -180,22 +207,23 @@ def check_schedule(case, clause="schedule"):
     nt = sched.max_inflight >= 2 and reordered
     return {"nt": nt, "classes": ["inflight%d" % min(sched.max_inflight, 4), "reordered" if reordered else "in-order",
                                   "store" if case["store"] else "dummy",
-                                  "burst" if any(k == "burst" for _, _, k in sched.trace) else "no-burst"],
+                                  "burst" if any(k == "burst" for _, _, k in sched.trace) else "no-burst"] + (
+                ["sql-gates"] if case.get("sqlgates") else []),
             "branching": list(sched.branching), "trace": [(t, g) for t, g, _ in sched.trace]}
 
 
 # ---------------------------------------------------------------- bounded-exhaustive exploration of all schedules
 
-CONFIGS = {"2x2": (2, 2), "3x2": (3, 2), "3x3": (3, 3)}
+CONFIGS = {"2x2": (2, 2), "3x2": (3, 2), "3x3": (3, 3), "2x2sql": (2, 2)}
 PREFIX_DEPTH = 3
 
 
 def subtree_items(tier):
-    names = ["2x2", "3x2"] if tier == "quick" else ["2x2", "3x2", "3x3"]
+    names = ["2x2", "3x2"] if tier == "quick" else ["2x2", "3x2", "3x3", "2x2sql"]
     for name in names:
         b, w = CONFIGS[name]
         for store in (False, True):
-            if name == "3x3" and not store:
+            if name in ("3x3", "2x2sql") and not store:
                 continue
             for prefix in itertools.product(range(w), repeat=PREFIX_DEPTH):
                 yield {"cfg": name, "store": store, "prefix": list(prefix)}
@@ -205,7 +233,7 @@ def check_subtree(case):
     """explore every schedule that starts with the given choice prefix (DFS by stateless re-execution)"""
     b, w = CONFIGS[case["cfg"]]
     base = {"b": b, "workers": w, "store": case["store"], "constraints": False, "fails": [0] * b, "default": 0,
-            "seed": 1}
+            "seed": 1, "sqlgates": case["cfg"].endswith("sql")}
     prefix = list(case["prefix"])
     n = 0
     nt_keys = []
